@@ -157,7 +157,7 @@ NSHARDS = 16
 
 
 def shards(tier, seed):
-    cnt = 14 if tier == "quick" else 260
+    cnt = 14 if tier == "quick" else 900
     return [{"name": f"rand{i}", "kind": "rand", "i": i, "count": cnt, "budget_s": 90 if tier == "quick" else 1200}
             for i in range(NSHARDS)]
 
